@@ -340,6 +340,8 @@ def shared(ctx):
     from rules.engine import core
     from rules.props import c01
     core.import_rules(ctx, [c01.r2_exemption_table], "X01")
+    from rules.props import c03
+    core.import_rules(ctx, [c03.r5_inflator], "X03")    # the reward cap uses the inflator of the state's own height: microergs_per_dosc(h) is the table entry at h
 
 
 RULES = [r1_gate_chain, r2_reward_bound, r3_speed_commitment, r5_speed_formula, r6_reward_rounds_down, shared]
